@@ -67,7 +67,7 @@ def split_one(data):
     return tag, 1, len(data) - 1
 
 
-def fixed_point(raw, must_accept=False, same_bytes=False):
+def fixed_point(raw, must_accept=False, same_bytes=False, same_body=False):
     buf = bytearray(raw) + bytearray(TRAIL)
     try:
         p = Packet(buf)
@@ -81,6 +81,10 @@ def fixed_point(raw, must_accept=False, same_bytes=False):
         return False                    # header length == body length
     if same_bytes and out != bytes(raw):
         return False
+    if same_body:                       # the input body is already in the form PGPy itself writes: "same field values" means the same body octets
+        rs = split_one(bytes(raw))
+        if rs is None or out[sp[1]:] != bytes(raw)[rs[1]:rs[1] + rs[2]]:
+            return False
     buf2 = bytearray(out) + bytearray(TRAIL)
     try:
         p2 = Packet(buf2)
@@ -322,7 +326,8 @@ def fp_pub_ec(form: int, kind: int, p0: int, p1: int, kh: int, kc: int) -> bool:
         pt = b'\x40' + bytes([p0]) + bytes(range(30)) + bytes([p1])
         mat = OID_CV + bytes([1, 7]) + pt + bytes([3, 1, (8, 9, 10)[kh], (7, 8, 9)[kc]])
         alg = 18
-    return fixed_point(pack(6, pub_body(alg, mat), form), must_accept=True)
+    # fixed-width coordinates are the canonical form (what PGPy writes): the body must come back octet for octet, leading zero octets of a coordinate included
+    return fixed_point(pack(6, pub_body(alg, mat), form), must_accept=True, same_body=True)
 
 
 @ob('O8.pub-dsa-elg', 'DSA and ElGamal public key packets (four / three multiprecision integers)', 'kind in {DSA, ElGamal}; every integer 1..2 symbolic octets with symbolic bit counts; header form {new-1, old-1}',
@@ -473,6 +478,49 @@ def fp_partial(ei: int, last: int, x: int) -> bool:
     return bytes(buf2) == TRAIL and bytes(p2.__bytearray__()) == out
 
 
+@ob('O8.partial2', 'partial body lengths whose final part carries a two- or five-octet length: the literal packet imports with the right content, consumes exactly its octets, '
+                   'and re-serialises to a definite-length fixed point',
+    'one partial chunk of 2^e octets (e in {9, 10}) then a final part of length from {0, 191, 192, 193, 8383, 8384} in shortest or forced five-octet form; first content octet symbolic', cond_timeout={'q': 280, 't': 600})
+def fp_partial_wide(ei: int, fi: int, five: bool, x: int) -> bool:
+    """
+    pre: 0 <= ei < 2
+    pre: 0 <= fi < 6
+    pre: 0 <= x < 256
+    post: _
+    """
+    e = 9
+    if ei == 1:
+        e = 10
+    last = 0
+    for j, v in enumerate((0, 191, 192, 193, 8383, 8384)):
+        if fi == j:
+            last = v
+    hdr6 = b'b\x00\x00\x00\x00\x00'
+    total = hdr6 + bytes([x]) + BIG[:2 ** e + last - 7]
+    first, rest = total[:2 ** e], total[2 ** e:]
+    if last < 192 and not five:
+        lf = bytes([last])
+    elif last < 8384 and not five:
+        lf = bytes([(last - 192) // 256 + 192, (last - 192) % 256])
+    else:
+        lf = bytes([255, 0, 0, last // 256, last % 256])
+    raw = bytes([0xCB, 224 + e]) + first + lf + rest
+    buf = bytearray(raw) + bytearray(TRAIL)
+    try:
+        p = Packet(buf)
+    except PGPError:
+        return False
+    if bytes(buf) != TRAIL or bytes(p._contents) != total[6:]:
+        return False
+    out = bytes(p.__bytearray__())
+    sp = split_one(out)
+    if sp is None or sp[1] + sp[2] != len(out) or out[sp[1]:] != total:
+        return False
+    buf2 = bytearray(out) + bytearray(TRAIL)
+    p2 = Packet(buf2)
+    return bytes(buf2) == TRAIL and bytes(p2.__bytearray__()) == out
+
+
 @ob('O8.grow', 'in-place mutation of a parsed packet: a user id parsed from an old- or new-format packet and then edited so that its length crosses a width boundary '
                're-serialises (after update_hlen) to a packet that consumes exactly its own length and carries the edited value',
     'original header form in {old-1, old-2, new-1}; new length chosen by symbolic index from {190,191,192,193,254,255,256,257,8383,8384,65535,65536}', cond_timeout={'q': 280, 't': 600})
@@ -498,7 +546,7 @@ def fp_grow(form: int, li: int) -> bool:
     return bytes(buf) == TRAIL and type(q) is type(p) and q.uid == p.uid and bytes(q.__bytearray__()) == out
 
 
-SANITY = ['fp_partial(0, 0, 5)', 'fp_partial(4, 2, 5)', 'fp_partial(6, 1, 255)', 'fp_partial(7, 2, 0)', 'fp_partial(3, 0, 9)'] + ['fp_grow(%d, %d)' % (f, l) for f in (0, 3, 4) for l in range(12)] + ['fp_userid(0, 3, 1, 1, 1)', 'fp_userid(5, 2, 13, 7, 0)', 'fp_userid(3, 0, 0, 0, 0)', 'fp_userid(0, 2, 7, 3, 0)', 'fp_literal(0, 0x62, b"ab", False, b"xy")', 'fp_literal(2, 0x74, b"", True, b"")',
+SANITY = ['fp_partial_wide(%d, %d, %s, 65)' % (e, f, v) for e in (0, 1) for f in range(6) for v in (True, False)] + ['fp_partial(0, 0, 5)', 'fp_partial(4, 2, 5)', 'fp_partial(6, 1, 255)', 'fp_partial(7, 2, 0)', 'fp_partial(3, 0, 9)'] + ['fp_grow(%d, %d)' % (f, l) for f in (0, 3, 4) for l in range(12)] + ['fp_userid(0, 3, 1, 1, 1)', 'fp_userid(5, 2, 13, 7, 0)', 'fp_userid(3, 0, 0, 0, 0)', 'fp_userid(0, 2, 7, 3, 0)', 'fp_literal(0, 0x62, b"ab", False, b"xy")', 'fp_literal(2, 0x74, b"", True, b"")',
           'fp_small(0, 0, b"PGP")', 'fp_small(1, 3, b"\\x00\\x05")', 'fp_small(2, 0, b"abc")', 'fp_small(3, 2, b"\\x01\\x02")', 'fp_small(4, 0, b"")',
           'fp_opaque(0, 0, b"a")', 'fp_opaque(7, 2, b"\\x09ab")', 'fp_opaque(13, 0, b"\\xc8a")', 'fp_skesk(0, 3, 2, True, 1, 2, 96, b"")', 'fp_skesk(3, 0, 0, False, 0, 0, 0, b"ab")',
           'fp_skesk(0, 1, 1, True, 255, 0, 0, b"a")', 'fp_pkesk(0, 1, 2, 16, 0x80, 5)', 'fp_pkesk(3, 0, 0, 9, 1, 7)', 'fp_pkesk(0, 0, 0, 8, 0x80, 0)',
